@@ -62,6 +62,7 @@ def run(ctx):
     nc = []
     for k, cs in cases[:: 4 if ctx.quick else 2]:
         nc.append(f"prop.c06nocipher {k} {cs} missing")
+        nc.append(f"prop.c06nocipher {k} {cs} strict")
         nc.append(f"prop.c06nocipher {k} {cs} {rng.randrange(1, 8)}")
     ctx.check_props(nc, "prop.c06nocipher")
 
